@@ -6,7 +6,7 @@
 (* spread.  Theorems: conservation (the expected daily values of a kept period   *)
 (* add up to the amount), the coverage rule is monotone.                         *)
 EXTENDS ResampleDefs, SequencesExt
-CONSTANTS MonthlyLens, BimonthlyLens
+CONSTANTS MonthlyLens, BimonthlyLens, CalLens, CalLen
 VARIABLES in, out, pc
 vars == <<in, out, pc>>
 Miss(total, k, how) == IF how = "lead" THEN [i \in 1..k |-> i] ELSE [i \in 1..k |-> 1 + ((i - 1) * total) \div k]
@@ -16,6 +16,9 @@ Init ==
           in = [kind |-> "billing", cycle |-> "monthly", periods |-> <<Per(30, 0, 30 * 120), Per(l, e, 5 * (24 * l + e \div 60)), Per(31, 0, 31 * 48), Per(29, 0, 29 * 24)>>]
      \/ \E l \in BimonthlyLens, e \in {-60, 0, 60} :
           in = [kind |-> "billing", cycle |-> "bimonthly", periods |-> <<Per(61, 0, 61 * 24), Per(l, e, 5 * (24 * l + e \div 60)), Per(59, 0, 59 * 72)>>]
+     \/ \E ls \in [1..CalLen -> CalLens] :       \* read calendars of any lengths (the cycle is not declared)
+          /\ \E k \in 1..CalLen : ls[k] >= 25 /\ ls[k] <= 35
+          /\ in = [kind |-> "calendar", periods |-> [k \in 1..CalLen |-> [len |-> ls[k], extra |-> 0, amount |-> 10 * (k + 1) * ls[k]]]]
      \/ \E iv \in {15, 30, 60}, dm \in {1380, 1440, 1500}, how \in {"lead", "spread"} : \E k \in 0..(dm \div iv) :
           /\ (k = 0 => how = "lead")
           /\ in = [kind |-> "subdaily", interval |-> iv, dayMin |-> dm, total |-> dm \div iv, missing |-> Miss(dm \div iv, k, how)]
@@ -31,6 +34,9 @@ Spec == Init /\ [][Next]_vars
 Conservation == in.kind = "billing" => \A k \in 1..Len(in.periods) :
    LET p == in.periods[k]  rate == Q(p.amount, PeriodMinutes(p)) IN
    Eq(Add(Mul(rate, R(1440 * (p.len - 1))), Mul(rate, R(1440 + p.extra))), R(p.amount))
+CycleReadingsExclusive == in.kind = "calendar" => ~(MonthlyDetermined(in) /\ BimonthlyDetermined(in))
+CalendarConservation == in.kind = "calendar" => \A k \in 1..Len(in.periods) :
+   LET p == in.periods[k]  rate == Q(p.amount, PeriodMinutes(p)) IN Eq(Mul(rate, R(PeriodMinutes(p))), R(p.amount))
 CoverageRuleMonotone == in.kind \in {"subdaily", "temp"} => (MoreThanHalf(in) <=> 2 * Len(in.missing) < in.total)
 MissingIndicesDistinct == in.kind \in {"subdaily", "temp"} => Cardinality(Set(in.missing)) = Len(in.missing)
 =============================================================================
